@@ -421,8 +421,14 @@ class ResponseBatchItem(Struct):
         if (self.operation is not None):
             # Dynamically create the response payload class that belongs to the
             # operation
-            expected = self.payload_factory.create(self.operation.value)
-            if self.is_tag_next(expected.tag, tstream):
+            # An error result for an operation whose response payload is not
+            # implemented carries no payload and must still be readable.
+            try:
+                expected = self.payload_factory.create(self.operation.value)
+            except NotImplementedError:
+                expected = None
+            if expected is not None and \
+                    self.is_tag_next(expected.tag, tstream):
                 self.response_payload = expected
                 self.response_payload.read(tstream, kmip_version=kmip_version)
 
